@@ -55,7 +55,7 @@ def run(tier, seed):
               'scenarios in which a burst carried more than one read\'s worth of data' % (3 if q else 4))
     r.assumptions = ['the transport model (kernel buffer, TLS record layer with pending(), short reads) stands in for the kernel and OpenSSL',
                      'TLS record size <= receive buffer (16 KiB <= 64 KiB in reality); bursts consist of whole records',
-                     'the real-loopback supplement of the design is not built; the decision procedure is the transport model']
+                     'the real-loopback supplement (thorough tier, harness/loopback.py) is a sanity check with real sockets and OpenSSL; the decision procedure is the transport model']
     cfgt = ("SPECIFICATION Spec\nCONSTANTS Buf = 8\n Records = {3, 4, 8}\n Shorts = {1, 3, 8}\n BurstSizes = {2, 4, 6, 10}\n MaxBursts = %d\n PendingShortcut = %s\n"
             "INVARIANT NoStall\nINVARIANT Drained\nINVARIANT BlockOnlyWhenDrained\nINVARIANT Emit\nCHECK_DEADLOCK FALSE\n")
     res, beh = pipeline.generate('Transport', cfgt % (3 if q else 4, 'TRUE'))
@@ -103,7 +103,31 @@ def run(tier, seed):
                           "blocks": [x for x in traces[i]['tr'] if x['k'] == 'block'][:6]})
     for tid, clause in rej:
         r.violation(clause, {"scenario": jobs[tid], "trace": [x for x in traces[tid]['tr'] if x['k'] != 'srv'][:80]})
+    if not q:
+        loopback_supplement(r)
     return r.finish()
+
+
+def loopback_supplement(r):
+    """Real loopback TCP and TLS runs (harness/loopback.py, a process of its own without shims).  Sanity supplement: only a message
+    that clearly waited for the poll time-out counts as a violation; anything else unusual is a note."""
+    import os
+    import subprocess
+    import sys
+    from .. import loopback
+    here = os.path.dirname(os.path.dirname(os.path.dirname(os.path.abspath(__file__))))
+    try:
+        p = subprocess.run([sys.executable, '-m', 'harness.loopback'], cwd=here, stdout=subprocess.PIPE, stderr=subprocess.PIPE, timeout=300)
+        res = json.loads(p.stdout.decode().strip().split('\n')[-1])
+    except Exception as e:
+        r.note('loopback supplement could not run: %r' % (e,))
+        return
+    r.cov['loopback_supplement'] = res
+    for x in res:
+        if x.get('max_lateness_s', 0) >= 0.8 * loopback.POLL:
+            r.violation('loopback_message_waited_for_the_poll_timeout', {"kind": "loopback", "result": x})
+        elif not x.get('ok', True) or x.get('error') or x.get('skipped'):
+            r.note('loopback supplement: %s' % json.dumps(x))
 
 
 def replay(path, seed):
